@@ -246,6 +246,18 @@ def c14_templates(tier="quick", seed=0):
         T[f"sum@{pname}"] = ((lambda n, ptxt=ptxt: ptxt.replace("{E}", "+".join(["1"] * n))), (lambda n: n))
         T[f"concat@{pname}"] = ((lambda n, ptxt=ptxt: ptxt.replace("{E}", "('a'" + "+'a'" * (n - 1) + ").length")), (lambda n: n))
         T[f"digits@{pname}"] = ((lambda n, ptxt=ptxt: ptxt.replace("{E}", "1" * n)), (lambda n: float("1" * n)))
+        def big(text, base):
+            try:
+                return float(int(text, base))
+            except OverflowError:
+                return float("inf")
+        # literals in the other bases, long fractions and long strings: their value, Infinity where a double cannot hold it
+        T[f"hex@{pname}"] = ((lambda n, ptxt=ptxt: ptxt.replace("{E}", "0x" + "f" * n)), (lambda n, big=big: big("f" * n, 16)))
+        T[f"octal@{pname}"] = ((lambda n, ptxt=ptxt: ptxt.replace("{E}", "0o" + "7" * n)), (lambda n, big=big: big("7" * n, 8)))
+        T[f"binary@{pname}"] = ((lambda n, ptxt=ptxt: ptxt.replace("{E}", "0b" + "1" * n)), (lambda n, big=big: big("1" * n, 2)))
+        T[f"fraction@{pname}"] = ((lambda n, ptxt=ptxt: ptxt.replace("{E}", "0." + "3" * n)), (lambda n: float("0." + "3" * n)))
+        T[f"exponent@{pname}"] = ((lambda n, ptxt=ptxt: ptxt.replace("{E}", "1e" + "0" * (n - 1) + "9")), (lambda n: 1e9))
+        T[f"string@{pname}"] = ((lambda n, ptxt=ptxt: ptxt.replace("{E}", "'" + "s" * n + "'.length")), (lambda n: n))
         T[f"nest@{pname}"] = ((lambda n, ptxt=ptxt: ptxt.replace("{E}", "(" * min(n, 3000) + "1" + ")" * min(n, 3000))), (lambda n: 1))
     import multiprocessing as mp
     jobs = []
@@ -257,12 +269,16 @@ def c14_templates(tier="quick", seed=0):
                 continue
             if "@" in name and n > 5000 and tier == "quick" and not name.startswith("sum@"):
                 continue
+            if name.split("@")[0] in ("hex", "octal", "binary", "fraction", "exponent", "string") and tier == "quick" and name.split("@")[1] not in ("top", "decl", "arrow", "getter", "in-try"):
+                continue
             jobs.append((name, n, mk(n), expect(n)))
     with mp.get_context("fork").Pool(16) as pool:
         res = pool.map(_template_case, jobs, chunksize=4)
     out = []
     for name in T:
         mine = [(n, why) for (nm, n, why) in res if nm == name]
+        if not mine:
+            continue            # (not part of this tier)
         bad = next(((n, why) for n, why in mine if why is not None), None)
         out.append(ob(f"C14.bounded.templates.{name}", bad is None, "B",
                       "ok" if bad is None else f"n={bad[0]}: {bad[1]}", witness=(f"template {name} with n={bad[0]}" if bad else None),
